@@ -229,6 +229,17 @@ func matrixMenu(w, h int, full bool) []mop {
 	}
 	ops = append(ops, xorOp(3), xorOp(1))
 	ops = append(ops,
+		mop{"Xor(self)", func(r *gozxing.BitMatrix, m *mmodel) string {
+			// the argument aliases the receiver: x xor x == 0
+			e := r.Xor(r)
+			for i := range m.b {
+				m.b[i] = false
+			}
+			if e != nil {
+				return "Xor(self) returned " + e.Error()
+			}
+			return ""
+		}},
 		mop{"Xor(wrong-size)", func(r *gozxing.BitMatrix, m *mmodel) string {
 			mr, _ := gozxing.NewBitMatrix(m.w+1, m.h)
 			if e := r.Xor(mr); e == nil {
@@ -699,6 +710,22 @@ func arrayMenu(size int) []aop {
 			}
 			return ""
 		}},
+		aop{"Xor(self)", func(r *gozxing.BitArray, m *amodel) string {
+			err := r.Xor(r)
+			for k := range m.b {
+				m.b[k] = false
+			}
+			if err != nil {
+				return "Xor(self) returned " + err.Error()
+			}
+			return ""
+		}},
+		aop{"AppendBitArray(self)", func(r *gozxing.BitArray, m *amodel) string {
+			// the argument aliases the receiver: the array is doubled
+			r.AppendBitArray(r)
+			m.b = append(m.b, append([]bool{}, m.b...)...)
+			return ""
+		}},
 		aop{"Xor(wrong-size)", func(r *gozxing.BitArray, m *amodel) string {
 			o := gozxing.NewBitArray(len(m.b) + 1)
 			if err := r.Xor(o); err == nil {
@@ -960,8 +987,11 @@ func runArray() {
 		}
 	}
 	roots = append(roots, root{0, 4}) // NewEmptyBitArray
+	for _, size := range []int{255, 256, 257, 511, 512, 1000, 1023, 1024, 1025, 4096} {
+		roots = append(roots, root{size, 2}, root{size, 3})
+	}
 	depth := chk.Pick(2, 3)
-	chk.Range(fmt.Sprintf("BitArray all sizes 0..200 x 4 contents (+NewEmptyBitArray), depth %d", depth), len(roots),
+	chk.Range(fmt.Sprintf("BitArray all sizes 0..200 x 4 contents (+NewEmptyBitArray, + sizes {255..257,511,512,1000,1023..1025,4096} x 2 contents), depth %d", depth), len(roots),
 		func(i int) string { return fmt.Sprint(roots[i]) },
 		func(l *mc.Local, i int) { searchArray(l, roots[i].size, roots[i].init, depth, 1<<30) })
 	var deep []root
